@@ -101,13 +101,29 @@ def matrix_cases():
             req.append(b",")
         req.append(b'"%s"' % x.encode())
     req += [b"]", b";"]
-    params = [[], [b'"i;octet"'], [b'"ge"'], [b'"x"'], [b"7"], [b"[", b'"x"', b"]"]]
+    params = [[], [b'"i;octet"'], [b'"ge"'], [b'"x"'], [b"7"], [b"[", b'"x"', b"]"], [b"text:\nx y\n.\n"], [b"[", b'"x"', b",", b"text:\ny\n.\n", b"]"]]
     for name in sorted(TABLE):
         exts, toks, at = minimal_use(name)
         for tag in T.TAGS + [T.UNKNOWN_TAG]:
             for variant in (tag, tag.upper()):
                 for par in params:
                     yield req + toks[:at] + [variant] + par + toks[at:]
+    # every ordered pair of tags each of which the command takes on its own (with the
+    # parameter it takes): constraints between tags, and between their order in the
+    # source and in the serialiser's output, show only here
+    from .refsieve import analyze, VALID
+    for name in sorted(TABLE):
+        exts, toks, at = minimal_use(name)
+        single = []
+        for tag in T.TAGS:
+            for par in params:
+                if analyze(T.join(req + toks[:at] + [tag] + par + toks[at:])).verdict == VALID:
+                    single.append((tag, par))
+                    break
+        for t1, p1 in single:
+            for t2, p2 in single:
+                if t1 != t2:
+                    yield req + toks[:at] + [t1] + p1 + [t2] + p2 + toks[at:]
 
 
 PUNCT2_TEMPLATES = [
